@@ -15,15 +15,15 @@ theorem inv_st0_mmap (env : Env) (mb : Nat) (hp : 0 < env.cfg.page) : Inv env (s
     exact ⟨by simp [st0], by simp [st0], by simp [st0]⟩
   · left; exact ⟨by simp [st0], by simp [st0]⟩
 
-theorem inv_lazy (env : Env) (mb : Nat) (hp : 0 < env.cfg.page) :
-    Inv env (transitionToRead (st0 env.cfg.page mb .read) 0) := by
+theorem inv_lazy (env : Env) (mb : Nat) (hp : 0 < env.cfg.page) (hdr : Nat) :
+    Inv env (transitionToRead (st0 env.cfg.page mb .read) 0 hdr) := by
   refine { page_pos := hp, pos_le := by simp [st0, transitionToRead], in_range := by simp [st0, transitionToRead],
            win_eq := by simp [st0, transitionToRead], atEnd_end := by simp [st0, transitionToRead],
            map_big := initMapSize_big _ _ hp, read_off := by simp [st0, transitionToRead],
            mmap_al := by simp [st0, transitionToRead], ls := ?_ }
   left; exact ⟨by simp [st0, transitionToRead], by simp [st0, transitionToRead]⟩
 
-theorem init_spec (env : Env) (mb : Nat) (b : Backend) (hp : 0 < env.cfg.page) (hH : env.cfg.fixH = true) :
+theorem init_spec (env : Env) (mb : Nat) (b : Backend) (hp : 0 < env.cfg.page) (hH : ShiftFixed env) :
     Inv env (init env mb b) ∧ (init env mb b).offset = 0 := by
   cases b with
   | file =>
@@ -32,12 +32,12 @@ theorem init_spec (env : Env) (mb : Nat) (b : Backend) (hp : 0 < env.cfg.page) (
     simp only [init, hs]
     exact ⟨hpost.inv, by rw [hpost.offset_eq]; simp [st0, St.offset]⟩
   | pipe =>
-    have h0 := inv_lazy env mb hp
+    have h0 := inv_lazy env mb hp kMagicSize
     obtain ⟨st', hs, hpost⟩ := shift_post hH h0 (by simp [st0, transitionToRead])
     simp only [init, hs]
     exact ⟨hpost.inv, by rw [hpost.offset_eq]; simp [st0, St.offset, transitionToRead]⟩
   | lazy =>
-    exact ⟨inv_lazy env mb hp, by simp [init, st0, St.offset, transitionToRead]⟩
+    exact ⟨inv_lazy env mb hp 0, by simp [init, st0, St.offset, transitionToRead]⟩
 
 theorem canon_peek (r : Res) : canon .peek r = r := by cases r <;> rfl
 theorem canon_get (r : Res) : canon .get r = r := by cases r <;> rfl
@@ -52,10 +52,10 @@ def Transparent (env : Env) (G : NumKind → Grammar) (op : Op) (st : St) : Prop
   (runOp env G op st).2.offset = st.offset + (specOp G op (env.bytes.drop st.offset)).2 ∧
   Inv env (runOp env G op st).2
 
-theorem fuelFor_big (env : Env) : env.bytes.length + 1 < fuelFor env := by unfold fuelFor; omega
+theorem fuelFor_big (env : Env) : 2 * env.bytes.length + 3 < fuelFor env := by unfold fuelFor; omega
 
 theorem op_transparent_aux (env : Env) (G : NumKind → Grammar) (hG : ∀ k, GrammarOK (G k))
-    (hH : env.cfg.fixH = true) (hI : env.cfg.fixI = true) (op : Op) (st : St) (h : Inv env st) :
+    (hH : ShiftFixed env) (hI : env.cfg.fixI = true) (op : Op) (st : St) (h : Inv env st) :
     Transparent env G op st := by
   unfold Transparent
   have hf := fuelFor_big env
@@ -83,10 +83,10 @@ theorem op_transparent_aux (env : Env) (G : NumKind → Grammar) (hG : ∀ k, Gr
     rcases a with a | ⟨a, _⟩ <;> rw [a] <;> rfl
   | readLine d s =>
     rw [canon_readLine]
-    exact readLine_spec hH G d s (fuelFor env) 0 st h (by omega) (Nat.zero_le _) (by simp [idxOf])
+    exact readLine_spec hH G d s (fuelFor env) 0 st h (by omega) (by simp [idxOf])
   | readLineOrEOF d s =>
     rw [canon_readLineOrEOF]
-    exact readLine_spec hH G d s (fuelFor env) 0 st h (by omega) (Nat.zero_le _) (by simp [idxOf])
+    exact readLine_spec hH G d s (fuelFor env) 0 st h (by omega) (by simp [idxOf])
   | readDelimited d =>
     rw [canon_readDelimited]
     exact readDelimited_spec hH G d (fuelFor env) st h hf
@@ -97,7 +97,7 @@ theorem op_transparent_aux (env : Env) (G : NumKind → Grammar) (hG : ∀ k, Gr
     exact readNumber_spec hH G k (hG k) (fuelFor env) st h hf
 
 theorem transcript_spec (env : Env) (G : NumKind → Grammar) (hG : ∀ k, GrammarOK (G k))
-    (hH : env.cfg.fixH = true) (hI : env.cfg.fixI = true) :
+    (hH : ShiftFixed env) (hI : env.cfg.fixI = true) :
     ∀ (ops : List Op) (st : St), Inv env st →
       transcript env G ops st = specTranscript G env.bytes ops st.offset := by
   intro ops
